@@ -70,6 +70,7 @@ pub fn scenario(seed: u64, threads: usize, max_operands: usize, max_ops: usize, 
                 Kind::Bool => "!p&&true||q",
                 Kind::Sim | Kind::Sim2 => "sq(x)**2<=3*TEN-incy",
                 Kind::Sim3 => "tw(x)&&1<<2|negy",
+                Kind::Gen(_) => "x+1*2",
             };
             t.insert(
                 i,
